@@ -51,6 +51,10 @@ impl Crdt for GC {
         s.reset_remove(c);
         Some(())
     }
+    fn own_clock(s: &Self::S) -> Option<Clock> {
+        // the inner clock is private: read it through derive(Serialize)
+        parse_clock(&tree_clock(&to_tree(s)))
+    }
     fn eq(a: &Self::S, b: &Self::S) -> Option<bool> {
         Some(a == b)
     }
@@ -116,6 +120,13 @@ impl Crdt for PN {
     fn reset_remove(s: &mut Self::S, c: &Clock) -> Option<()> {
         s.reset_remove(c);
         Some(())
+    }
+    fn own_clock(s: &Self::S) -> Option<Clock> {
+        // join of the two private inner clocks
+        let t = to_tree(s);
+        let mut c = parse_clock(&tree_clock(t.field("p")))?;
+        c.merge(parse_clock(&tree_clock(t.field("n")))?);
+        Some(c)
     }
     fn eq(a: &Self::S, b: &Self::S) -> Option<bool> {
         Some(a == b)
